@@ -1143,6 +1143,46 @@ void vf_run(vf_rd *r, vf_report *rep) {
         vf_nontrivial(vf_mix(m.shapeh, 0x4d58));
     }
     mx_history(&m, r, rep);
+    /* appended to the case (absent bytes = off): rel:1 dcols:1 then a second
+     * history.  A matrix is plain caller memory behind a self-describing
+     * header, so an image of ANOTHER matrix (same rows, fewer columns) may be
+     * copied over the place where this one lived - a file read into a reused
+     * buffer - and must behave exactly as it did where it was built.  Both
+     * matrices are touched alternately first, so anything the library might
+     * remember about either address is in place. */
+    if (!rep->violated) {
+        const unsigned rel = vf_u8(r), dc = vf_u8(r);
+        if (!(rel & 1)) {
+            vf_class("reloc.off");
+        } else if (m.sparse || colsDecl > 300 || colsDecl < 2 || rowsDecl < 2) {
+            vf_class("reloc.skip");
+        } else {
+            const uint64_t colsB = colsDecl - 1 - dc % (colsDecl - 1 < 8 ? colsDecl - 1 : 8);
+            mx b;
+            if (mx_open(&b, rep, rowsDecl, colsB, ck, w, acc, fillsel, 0)) {
+                mx_close(&b);
+            } else if (b.sparse || b.total > m.total) {
+                vf_class("reloc.skip");
+                mx_close(&b);
+            } else {
+                uint8_t *home = b.buf;
+                /* last access to the old tenant of the address, row >= 1 */
+                (void)cell_get(&m, m.Ra - 1, 0);
+                memcpy(m.buf, home, b.total);
+                b.buf = m.buf;
+                vf_class("reloc.on");
+                vf_class(b.dim == m.dim ? "reloc.same-widths"
+                                        : "reloc.other-widths");
+                vf_desc(rep, " | image of a %llu-by-%llu matrix copied over it:",
+                        U(rowsDecl), U(colsB));
+                vf_evals(1);
+                vf_nontrivial(vf_mix(vf_mix(m.shapeh, b.shapeh), 0x52454c));
+                mx_history(&b, r, rep);
+                b.buf = home;
+                mx_close(&b);
+            }
+        }
+    }
     mx_close(&m);
 }
 
